@@ -603,7 +603,10 @@ def an_C04_window(mod, name, paths, fq):
         elif r.fields['ktraces'] is not s.window.events:
             kt = r.fields['ktraces']
             o = getattr(kt, 'origin', None)
-            if name == 'TRACE_STRING_GLOBAL' and isinstance(o, tuple) and o[0] == 'loop-havoc' and o[1] is s.window.events:
+            src = o[1] if isinstance(o, tuple) and len(o) > 1 else None
+            so = getattr(src, 'origin', None)
+            from_window = src is s.window.events or (isinstance(so, tuple) and so[0] == 'comp' and so[1] is s.window.events)
+            if name == 'TRACE_STRING_GLOBAL' and isinstance(o, tuple) and o[0] == 'loop-havoc' and from_window:
                 continue      # re-slices its window up to the first END-bit record: stated and proved in C08
             bad = 'ktraces is not the delivered window'
     if n == 0:
